@@ -70,6 +70,10 @@ CHECKS = {
          "Exploration: seven matrices (~0.6M cells quick, 4.5M thorough) over 99 pool values covering every kind the statement lists, plus 20k-150k random programs per run; each render must return output or an error, never a panic; a panic is reported once per root cause with its smallest witness.",
          "Fatal stack overflows cannot be recovered and surface as an inconclusive run (exit 2), not as a VIOLATION; unbounded template recursion is not generated; range/between/until are iterated with small arguments only.",
          "DESIGN.md §4 C04"),
+ "C18": ("metamorphic re-layout: enumerated and rapid-drawn layout decision vectors (token separators incl. line comments, comment tags, tag merging / cutting, semicolons) over fixed programs and random all-construct programs; canonical layout as baseline, reference interpreter as cross-check",
+         "Exploration: 9 fixed programs x 2 printers x 2 modes x 600 (quick 150) enumerated decision vectors and thousands of random programs, each re-laid-out with random separators from {spaces, tab, newline, CRLF, # comments (also containing %>), nothing}, comment tags between tags, merged and cut silent tags and semicolons; the variant must render exactly what the canonical layout renders (or the same error modulo line numbers).",
+         "The re-layout tokenizer understands what model.Printer prints; the stated exceptions (- and . in identifiers, statements starting with ( or [, # directly after <%) are excluded by construction.",
+         "DESIGN.md §4 C18"),
 }
 
 NOT_BUILT = "check not built yet in this session (see DESIGN.md §4 for its plan); will be claimed once its check is committed"
